@@ -8,6 +8,7 @@ import PsVerif.Lemmas.Masked
 import PsVerif.Lemmas.RegionA
 import PsVerif.Lemmas.RegionB
 import PsVerif.Props.C03
+import PsVerif.Props.C01
 namespace PsVerif
 
 variable {σ : Type}
@@ -89,6 +90,21 @@ theorem exactN_count_eq (S : ResidSys σ) (s0 : σ) (n N s k : Nat) (L A : List 
   rw [hmask] at hnn hpos ⊢
   rw [greedyRunFrom_take S zc _ s0 n N k hk]
   exact exactN_count_core S s0 n N s L A h.hNn h.hL h.hLn h.hAp h.hA h.hnn0 hs hin hout hnn hpos
+
+end PsVerif
+
+namespace PsVerif
+
+/-- **C05 (SSPOR with GQR).** The sensors selected by an SSPOR model with `n_sensors = N ≤ n_basis_modes`
+are the first `N` sensors ranked by its optimizer (the tail shuffle starts at `n_basis_modes`), so the
+three count theorems above carry over to the model's selection. -/
+theorem sspor_selection_eq_optimizer (σ : List Nat → List Nat) (m N : Nat) (r : List Nat)
+    (hN : N ≤ m) (hm : m ≤ r.length) :
+    selectLead N (tailShuffle σ m r) = r.take N := by
+  unfold selectLead
+  have h := tailShuffle_take σ m r hm
+  have h1 : ((tailShuffle σ m r).take m).take N = (r.take m).take N := by rw [h]
+  simpa [List.take_take, Nat.min_eq_left hN] using h1
 
 end PsVerif
 
